@@ -71,6 +71,21 @@ pub fn conformance() -> Vec<Ill> {
       format!("{diamond_prelude}class Seven : {supers} {{\n  method get(): int = 7\n}}\nclass Main {{ function main(): unit = {{ }} }}\n"),
     );
   }
+  // several unrelated interfaces declare a method of the same name; the class matches all but the
+  // k-th one (wrong return type / wrong parameter list there): every declaration has to be checked
+  for n in [2usize, 3] {
+    for bad in 0..n {
+      for (fname, decl) in [("another return type", "method label(): int"), ("another parameter list", "method label(prefix: Str): Str")] {
+        let mut text = String::new();
+        for i in 0..n {
+          text.push_str(&format!("interface I{i} {{ {} }}\n", if i == bad { decl } else { "method label(): Str" }));
+        }
+        let supers = (0..n).map(|i| format!("I{i}")).collect::<Vec<_>>().join(", ");
+        text.push_str(&format!("class C(val v: int) : {supers} {{\n  method label(): Str = \"c\"\n}}\nclass Main {{ function main(): unit = {{ }} }}\n"));
+        push(format!("class implements {n} interfaces that declare `label`; interface number {} declares it with {fname}", bad + 1), text);
+      }
+    }
+  }
   out
 }
 
@@ -267,4 +282,77 @@ pub fn arity() -> Vec<ArityCase> {
     }
   }
   out
+}
+
+/// A type-parameter NAME used outside the declaration that binds it: after a generic toplevel, before
+/// it, in a sibling member of a member-level parameter. Each program also accesses a member on a value
+/// of that type (the checker must reject the name, not trip over it).
+pub fn tparam_escape() -> Vec<Ill> {
+  let generic = "class Box<T>(val content: T) {\n  method get(): T = this.content\n  function <R> conv(r: R): R = r\n}\n";
+  let users: [(&str, &str, &str); 8] = [
+    ("return type of an interface method", "interface Producer {\n  method produce(): T\n}\n", "function run(p: Producer): unit = {\n    let produced = p.produce();\n    let _ = produced.describe();\n  }"),
+    ("parameter type of an interface method", "interface Consumer {\n  method consume(t: T): int\n}\n", "function run(c: Consumer, b: Box<int>): int = c.consume(b.get())"),
+    ("interface with another type parameter of its own", "interface Conv<U> {\n  method conv(u: U): T\n}\n", "function run(c: Conv<int>): unit = {\n    let _ = c.conv(1).size();\n  }"),
+    ("field type of a class", "class Holder(val item: T) {\n  method show(): int = this.item.size()\n}\n", "function run(h: Holder): int = h.show()"),
+    ("parameter type of a function of another class", "class Util {\n  function first(x: T): T = x\n}\n", "function run(): unit = {\n    let _ = Util.first(1).foo();\n  }"),
+    ("bound of a type parameter of another class", "class Bounded<U: T>(val u: U) {}\n", "function run(): int = 1"),
+    ("member-level type parameter used by a sibling member", "class Sib {\n  function <M> id(x: M): M = x\n  function other(y: M): int = y.bar()\n}\n", "function run(): int = 1"),
+    ("method-level type parameter of the generic class used by a later class", "class Later {\n  function keep(r: R): R = r\n}\n", "function run(): unit = {\n    let _ = Later.keep(1).baz();\n  }"),
+  ];
+  let mut out = vec![];
+  for (what, user, run) in users {
+    for generic_first in [true, false] {
+      let (a, b) = if generic_first { (generic, user) } else { (user, generic) };
+      let text = format!("{a}{b}class Main {{\n  {run}\n  function main(): unit = {{ }}\n}}\n");
+      out.push(Ill {
+        kind: "type-parameter-scope",
+        what: format!("type parameter name out of scope: {what} ({} the generic class)", if generic_first { "after" } else { "before" }),
+        modules: vec![("Main".into(), text)],
+        target: "Main".into(),
+      });
+    }
+  }
+  out
+}
+
+/// Two modules declare a class of the same simple name with different contents; a value of one reaches
+/// a slot typed with the other in a third module (argument, return value, field initialiser,
+/// annotated let, element of a conditional).
+pub fn same_name_classes() -> Vec<Ill> {
+  let geometry = "class Point(val x: int, val y: int) {\n  method sum(): int = this.x + this.y\n}\nclass Geo {\n  function norm(p: Point): int = p.sum()\n  function origin(): Point = Point.init(0, 0)\n}\n";
+  let labels = "class Point(val label: Str) {}\nclass Lab {\n  function make(): Point = Point.init(\"p\")\n  function show(p: Point): Str = p.label\n}\n";
+  let flows: [(&str, &str); 6] = [
+    ("function argument", "let _ = Geo.norm(Lab.make());"),
+    ("method receiver of the other class's function", "let _ = Lab.show(Geo.origin());"),
+    ("return value", "let _ = Main.pick();"),
+    ("field initialiser", "let _ = Wrap.init(Lab.make());"),
+    ("branches of a conditional", "let _ = if Main.yes() { Geo.origin() } else { Lab.make() };"),
+    ("argument of a lambda typed by the other class", "let f = (p: Point) -> p.sum(); let _ = f(Lab.make());"),
+  ];
+  let mut out = vec![];
+  for (what, stmt) in flows {
+    let main = format!(
+      "import {{ Point, Geo }} from Geometry\nimport {{ Lab }} from Labels\nclass Wrap(val p: Point) {{}}\nclass Main {{\n  function yes(): bool = true\n  function pick(): Point = Lab.make()\n  function good(): Point = Geo.origin()\n  function main(): unit = {{\n    {stmt}\n  }}\n}}\n"
+    );
+    // `pick` is itself the return-value flow; the other programs must not contain it
+    let main = if what == "return value" { main } else { main.replace("  function pick(): Point = Lab.make()\n", "") };
+    out.push(Ill {
+      kind: "same-name-classes",
+      what: format!("a value of Labels.Point used as Geometry.Point: {what}"),
+      modules: vec![("Geometry".into(), geometry.to_string()), ("Labels".into(), labels.to_string()), ("Main".into(), main)],
+      target: "Main".into(),
+    });
+  }
+  out
+}
+
+/// Every generated family of programs that are ill-typed by construction.
+pub fn all_generated() -> Vec<Ill> {
+  let mut v = conformance();
+  v.extend(visibility());
+  v.extend(scope_escape());
+  v.extend(bounds());
+  v.extend(tparam_escape());
+  v.extend(same_name_classes());
+  v
 }
